@@ -63,6 +63,8 @@ def make_peer(c):
     gex = None
     if prof == 'equals':
         k['kex'] = k['kex'] + rng.sample(EQ_NAMES, 2) + [audit.gss_instance(rng, 'gss-group14-sha256-*', forced='+/')]
+        # ... and names with '#' (RFC 4251 allows it in a name; in a policy file it starts a comment only at the start of a line), in the middle and at the end of the list
+        k['kex'] = k['kex'][:1] + ['kex#1@example.com'] + k['kex'][1:] + ['#kex@example.org']
         # '=' in cipher and MAC names too, in every shape (digits after it, several of them, at either end), first / in the middle / last in the list
         for cat, pool in (('enc', ['aes256-mode=7', 'cipher=x=y@example.com', 'c=@example.org']), ('mac', ['hmac-sha2-256-trunc=96', 'mac=a=12', '=mac@example.com'])):
             j = c.get('i', rng.randrange(72)) // 8     # position and shape cycle with the case index: every position is met in every run
